@@ -1,6 +1,7 @@
 package main
 
 import (
+	"reflect"
 	"bytes"
 	"fmt"
 )
@@ -78,6 +79,17 @@ func c01Oracle(c *Ctx, p *Parser, input []byte, extra [][]byte, res Parsed) {
 	// serialising again must still reproduce the consumed bytes
 	if st, app := stableStruct(res.Val); app {
 		c.Check("reserialise_stable_after_caller_writes", st, p.Name, args, "", "serialising again after writing over the first result gives different bytes")
+	}
+	// queries in between: every exported argument-free method of the value is a read-only question;
+	// after asking all of them the value must still serialise to the bytes it was read from
+	if res.Val != nil && reflect.ValueOf(res.Val).Kind() == reflect.Ptr {
+		before := reserialise(res.Val)
+		if before != nil {
+			callAllMethods(res.Val)
+			after := reserialise(res.Val)
+			c.Check("reserialise_stable_after_queries", bytes.Equal(before, after), p.Name, args, "",
+				"after calling the value's argument-free methods (accessors, expiry queries, Verify, Validate) its serialisation changed")
+		}
 	}
 }
 
